@@ -1,0 +1,37 @@
+//go:build verif
+
+package lsp
+
+import "time"
+
+// Verification hooks (build tag verif only): direct access to the unexported frame reader, the
+// position arithmetic of the document mirror and the rate limiter's window start. No existing code is
+// touched; without the tag this file is not compiled.
+
+// VerifReadMessage reads one framed message exactly as the message loop does.
+func (s *Server) VerifReadMessage() ([]byte, error) {
+	m, err := s.readMessage()
+	return []byte(m), err
+}
+
+// VerifHandleMessage handles one message body exactly as the message loop does.
+func (s *Server) VerifHandleMessage(msg []byte) { s.handleMessage(msg) }
+
+// VerifSetLastReset moves the start of the rate limiter window (a start in the future freezes the
+// window, a start in the past forces a reset on the next message).
+func (s *Server) VerifSetLastReset(t time.Time) {
+	s.rateMu.Lock()
+	defer s.rateMu.Unlock()
+	s.lastReset = t
+}
+
+// VerifPositionToOffset exposes positionToOffset.
+func VerifPositionToOffset(lines []string, pos Position) int { return positionToOffset(lines, pos) }
+
+// VerifApplyChange exposes applyChange.
+func VerifApplyChange(content string, lines []string, change TextDocumentContentChangeEvent) string {
+	return applyChange(content, lines, change)
+}
+
+// VerifSplitLines exposes splitLines.
+func VerifSplitLines(content string) []string { return splitLines(content) }
